@@ -1,7 +1,8 @@
 // C17 — idempotency keys: the handler runs at most once, everyone gets the same answer.
 // All interleavings (preemption-bounded / unbounded with happens-before pruning) of 2–3
 // concurrent duplicate requests plus bystanders at the lock / storage / handler boundaries,
-// with injected storage and lock faults.
+// with injected storage and lock faults.  family.go adds the request / handler / configuration family (methods,
+// response shapes, handler failures incl. panic, Config fields, lifetime x clock, corrupted records, reused ctx).
 package main
 
 import (
@@ -497,6 +498,8 @@ func main() {
 		mk("replay-a-first-b", params{Warm: warmAB[:1], Outer: true, Reqs: []reqSpec{rp("repA", keyA), rp("firstB", keyB), {ID: "nokey", Method: "POST"}}, Storage: "injected", Locker: "default"},
 			xplore.Bounds{0, 2, 0, 0}, xplore.Bounds{0, 3, 0, 0}, false),
 	)
+	// request / handler / configuration family (family.go)
+	scenarios = append(scenarios, famScenarios(r)...)
 	schedx.RunAll(r, scenarios, 16)
 	if r.IsWorker() {
 		r.FinishWorker()
@@ -505,11 +508,14 @@ func main() {
 		Level:      "model_checking",
 		Exhaustive: true,
 		Coverage: schedx.Coverage(r, scenarios, map[string]any{
+			"family_rule": "fam-seq / fam-conc (family.go): members = ball of the stated radius around the base over the dimensions cfg x life x adv x method x shape x behave x store x variant x up x ctx (values in the scenario params); fam-seq serves nine requests one after the other (first, duplicate varying path/body/method, safe method with the key, key in the other header name, other key, invalid key, clock advance, duplicate with an optional corrupted/failing lookup, duplicate, duplicate of the other key), fam-conc serves the first two in flight together under all schedules; a sequential reference model (recorded answer per key with its time, lifetime in whole storage seconds) judges every request, three-valued where nothing is specified (counters unspecified_*); violations are minimised by resetting dimensions to base",
 			"rule": "every scenario is a closed driver (fresh app per execution, 2-4 request threads); ALL interleavings at the scheduling points (MemoryLock and countedLock mutex operations, storage mutex operations, injected storage Get/Set/Delete, handler entry/work seams, thread spawn/join) are enumerated depth-first by prefix replay under the stated preemption / fault bounds (-1 = unbounded with happens-before state pruning); the oracle runs on every complete execution",
 		}),
 		Assumptions: []string{
 			"sequential consistency; scheduling only at synchronisation operations and harness seams (data-race freedom between them is assumed, see DESIGN 1.3)",
-			"the built-in memory storage runs without its gc goroutine (dropgo); expiry is not exercised here",
+			"the built-in memory storage runs without its gc goroutine (dropgo); expiry is exercised through the harness-owned coarse clock (utilsclock) between requests only, never while requests are in flight",
+			"lifetimes are honoured in whole storage seconds: a duplicate arriving in the last, incomplete second of a lifetime that is not a whole number of seconds (or at any time when the lifetime is below one second) is not judged (unspecified_lifetime_below_clock_resolution)",
+			"response header lines Transfer-Encoding / Content-Length / Connection are message framing and not compared",
 			"with an injected Set fault at-most-once cannot be guaranteed by any implementation and is not judged",
 		},
 	})
